@@ -33,6 +33,9 @@ structure SOp where
   k   : String
   rs  : List Nat
   ids : List String
+  ctx : String := ""     -- padd: context handed to PostProcess (not an input of the model)
+  n   : Nat := 0         -- padd/cancel: context ended after the n-th Add of the batch
+  delay : Nat := 0       -- flow: the check pipeline answers after `delay` ns
 
 structure Op where
   sop : SOp
@@ -41,7 +44,9 @@ structure Op where
 
 def sopOf (j : Json) : R SOp := do
   pure { k := ← strF j "k", rs := ← listOf asNat (fieldD j "rs" .null),
-         ids := ← listOf asStr (fieldD j "ids" .null) }
+         ids := ← listOf asStr (fieldD j "ids" .null),
+         ctx := ← asStr (fieldD j "ctx" (.str "")), n := ← asNat (fieldD j "n" (.num 0)),
+         delay := ← asNat (fieldD j "delay" (.num 0)) }
 
 def opOf (j : Json) : R Op := do
   pure { sop := ← sopOf j, dt := ← asNat (fieldD j "dt" (.num 0)),
@@ -56,6 +61,9 @@ structure Call where
   evs   : List Ev                  -- the same as atomic events (for the Spec trace)
   out   : Option (List CheckResult)  -- `some` = this is a View call and this is what it returned
   label : String
+  uid   : Nat := 0                 -- identity within the history
+  pred  : Option Nat := none       -- `uid` of a call that must be linearized first (program order inside one
+                                   -- PostProcess: one `Add` call — one critical section — per eligible result)
 
 instance : Inhabited Call := ⟨{ inv := 0, res := 0, now := 0, apply := id, evs := [], out := none, label := "" }⟩
 
@@ -80,6 +88,11 @@ def mkCall (ttl : Nat) (tab : Array CheckResult) (o : SOp) (now inv res : Nat) (
   | "padd" =>
     let rs ← pick tab o.rs
     pure { base with apply := fun s => postProcess ttl now s rs, evs := (rs.filter eligibleB).map (Ev.add now) }
+  | "flow" =>
+    -- `now` is already the instant at which the check pipeline answered (see `build`)
+    let rs ← pick tab o.rs
+    pure { base with apply := fun s => observerProcess ttl (now - o.delay) o.delay s rs,
+                     evs := (rs.filter eligibleB).map (Ev.add now) }
   | "rm" => pure { base with apply := fun s => remove s o.ids, evs := o.ids.map (Ev.remove now) }
   | "hook" =>
     let rs ← pick tab o.rs
@@ -117,10 +130,13 @@ def build (ttl gci start : Nat) (tab : Array CheckResult) (ops : List Op) (impl 
   let mut hasBurst := false
   let mut clockDiff := ""
   let mut onTick := false
+  let mut uid := 0
   for (o, j) in ops.zip impl do
     now := now + o.dt
     let ranAt ← natF j "at"
     if ranAt ≠ now ∧ clockDiff = "" then clockDiff := s!"clock: operation expected at {now} ns ran at {ranAt} ns"
+    -- a flow call lasts `delay`: its adds happen when the check pipeline answers
+    now := now + o.sop.delay
     let (tk, k') := ticks start gci nextK now 100000
     nextK := k'
     for t in tk do
@@ -143,10 +159,24 @@ def build (ttl gci start : Nat) (tab : Array CheckResult) (ops : List Op) (impl 
         let ci ← natF c "inv"
         let cr ← natF c "res"
         if ¬ (binv < ci ∧ ci < cr ∧ cr < bres) then throw s!"burst: stamps out of range"
-        calls := calls.push (← mkCall ttl tab so now (stamp + (ci - binv)) (stamp + (cr - binv)) (fieldD c "view" .null) s!"g{th}.{ix}:{so.k}")
+        let elig := if so.k == "padd" then so.rs.filter (fun i => match tab[i]? with | some r => eligibleB r | none => true) else []
+        if so.k == "padd" ∧ elig.length ≥ 2 then
+          -- PostProcess is not one critical section: other goroutines may run between its Adds
+          let mut prev : Option Nat := none
+          for i in elig do
+            uid := uid + 1
+            let c1 ← mkCall ttl tab { so with rs := [i] } now (stamp + (ci - binv)) (stamp + (cr - binv)) .null s!"g{th}.{ix}:padd[{i}]"
+            calls := calls.push { c1 with uid := uid, pred := prev }
+            prev := some uid
+        else
+          uid := uid + 1
+          let c1 ← mkCall ttl tab so now (stamp + (ci - binv)) (stamp + (cr - binv)) (fieldD c "view" .null) s!"g{th}.{ix}:{so.k}"
+          calls := calls.push { c1 with uid := uid }
       stamp := stamp + (bres - binv) + 1
     else
-      calls := calls.push (← mkCall ttl tab o.sop now stamp (stamp + 1) (fieldD j "view" .null) o.sop.k)
+      uid := uid + 1
+      let c1 ← mkCall ttl tab o.sop now stamp (stamp + 1) (fieldD j "view" .null) o.sop.k
+      calls := calls.push { c1 with uid := uid }
       stamp := stamp + 2
   pure { calls := calls.qsort (fun a b => a.inv < b.inv), hasBurst, clockDiff, onTick }
 
@@ -191,7 +221,10 @@ def stateKey (tab : Array CheckResult) (s : Store) : String :=
 
 /-- indices of the calls that may be linearized next: not done, and no other pending call
 responded before their invocation.  `calls` is sorted by `inv`. -/
-def candidates (calls : Array Call) (done : Nat) : List Nat := Id.run do
+def predIdx (calls : Array Call) : Array (Option Nat) :=
+  calls.map fun c => c.pred.bind fun u => calls.findIdx? (·.uid == u)
+
+def candidates (calls : Array Call) (preds : Array (Option Nat)) (done : Nat) : List Nat := Id.run do
   let mut minRes : Option Nat := none
   let mut out : List Nat := []
   for i in [0:calls.size] do
@@ -200,7 +233,10 @@ def candidates (calls : Array Call) (done : Nat) : List Nat := Id.run do
       match minRes with
       | some m => if m < c.inv then break
       | none => pure ()
-      out := i :: out
+      let ready := match preds[i]! with
+        | some j => done.testBit j
+        | none => true
+      if ready then out := i :: out
       minRes := match minRes with
         | some m => some (min m c.res)
         | none => some c.res
@@ -217,7 +253,7 @@ inductive Verdict where
   | none (deepest : Nat) (why : String) (expanded : Nat)
   | budget (expanded : Nat)
 
-def search (ttl : Nat) (tab : Array CheckResult) (calls : Array Call) :
+def search (ttl : Nat) (tab : Array CheckResult) (calls : Array Call) (preds : Array (Option Nat)) :
     Nat → List Node → Std.HashSet String → Nat → String → Nat → Verdict
   | 0, _, _, _, _, ex => .budget ex
   | _ + 1, [], _, deepest, why, ex => .none deepest why ex
@@ -225,9 +261,9 @@ def search (ttl : Nat) (tab : Array CheckResult) (calls : Array Call) :
     if n.count = calls.size then .found n.path.reverse ex
     else
       let key := s!"{n.done}|{stateKey tab n.s}"
-      if seen.contains key then search ttl tab calls fuel stack seen deepest why ex
+      if seen.contains key then search ttl tab calls preds fuel stack seen deepest why ex
       else
-        let cands := candidates calls n.done
+        let cands := candidates calls preds n.done
         let succ := cands.filterMap fun i =>
           (fire ttl n.s calls[i]!).map fun s' =>
             ({ done := n.done ||| (1 <<< i), count := n.count + 1, s := s', path := i :: n.path } : Node)
@@ -240,7 +276,7 @@ def search (ttl : Nat) (tab : Array CheckResult) (calls : Array Call) :
                | i :: _ => view ttl calls[i]!.now n.s
                | [] => [])} but every pending view differs: {blocked}")
           else (deepest, why)
-        search ttl tab calls fuel (succ ++ stack) (seen.insert key) deepest' why' (ex + 1)
+        search ttl tab calls preds fuel (succ ++ stack) (seen.insert key) deepest' why' (ex + 1)
 
 def budget : Nat := 200000
 
@@ -276,12 +312,14 @@ def tagsOf (ttl : Nat) : Store → List Ev → List String → List String
       | .gc t =>
         (if s.any (fun p => expired ttl t p.2) then ["gc-collects"] else []) ++
         (if s.any (fun p => decide (t - p.2.addedAt = ttl)) then ["gc-age=ttl"] else []) ++
-        (if s.any (fun p => decide (t - p.2.addedAt = ttl + 1)) then ["gc-age=ttl+1"] else []) ++ acc
+        (if s.any (fun p => decide (t - p.2.addedAt = ttl + 1)) then ["gc-age=ttl+1"] else []) ++
+        (if (s.filter (fun p => !expired ttl t p.2)).length > 2000 then ["gc-with>2000-live"] else []) ++ acc
       | .view t out =>
         (if s.any (fun p => expired ttl t p.2) then ["view-hides-dead"] else []) ++
         (if s.any (fun p => decide (t - p.2.addedAt = ttl)) then ["age=ttl"] else []) ++
         (if s.any (fun p => decide (t - p.2.addedAt = ttl + 1)) then ["age=ttl+1"] else []) ++
         (if s.any (fun p => decide (t - p.2.addedAt + 1 = ttl)) then ["age=ttl-1"] else []) ++
+        (if out.length > 2000 then ["view>2000"] else []) ++
         (if out.length ≥ 2 then ["view-multi"] else if out.length = 1 then ["view-single"] else ["view-empty"]) ++ acc
     tagsOf ttl (step ttl s e) rest acc'
 
@@ -334,7 +372,16 @@ def handle (input impl : Json) : R Reply := do
     let (si, fail) := match specImplOverride with
       | some p => p
       | none => let ok := spec ttl trace; (ok, if ok then "" else explain ttl trace)
-    let tags := (tagsOf ttl [] mtrace []).eraseDups ++ extra ++
+    let allS := ops.flatMap (fun o => o.sop :: o.th.flatten)
+    let nElig (o : SOp) : Nat := (o.rs.filter (fun i => match tab[i]? with | some r => eligibleB r | none => false)).length
+    let opTags :=
+      (if allS.any (fun o => o.k == "padd" && o.ctx == "done") then ["pp-ctx-done"] else []) ++
+      (if allS.any (fun o => o.k == "padd" && o.ctx == "expired") then ["pp-ctx-expired"] else []) ++
+      (if allS.any (fun o => o.k == "padd" && o.ctx == "cancel" && decide (o.n < nElig o)) then ["pp-ctx-ends-mid-batch"] else []) ++
+      (if allS.any (fun o => o.k == "flow") then ["flow"] else []) ++
+      (if allS.any (fun o => o.k == "flow" && decide (o.delay > Gen.observationProcessLimitNs) && decide (nElig o > 0))
+        then ["flow-answers-after-limit"] else [])
+    let tags := (tagsOf ttl [] mtrace []).eraseDups ++ extra ++ opTags ++
       (if b.onTick then ["op-on-gc-tick"] else []) ++
       (if !handedStrict ttl mtrace then ["dominated-then-expired"] else [])
     let agree' := agree && constDiff.isEmpty
@@ -351,7 +398,7 @@ def handle (input impl : Json) : R Reply := do
   else
     let extra := ["burst"] ++ (if overlaps calls then ["overlap"] else [])
     let root : Node := { done := 0, count := 0, s := [], path := [] }
-    match search ttl tab calls budget [root] {} 0 "" 0 with
+    match search ttl tab calls (predIdx calls) budget [root] {} 0 "" 0 with
     | .found path ex =>
       let order := path.map (calls[·]!)
       pure (mk true "" order none (extra ++ (if ex > calls.size then ["lin-backtracked"] else [])) false)
